@@ -27,7 +27,7 @@ FORMS = (["{a} %s {b}" % op for op in ["+", "-", "*", "/", "//", "%", "**", "<<"
             "[w for w in {a} for u in {b}]", "lambda: {a}", "lambda p={b}: {a}", "lambda *p, **q: {a}", 'f"{{{a}}}"', 'f"{{{a}!r:>{{{b}}}}}"', 'f"{{{a}:>5}}"', 'f"{{{a}=}}"', 'f"{{{a}:d}}"',
             'f"{{{a}}}{{{b}}}"', "(v := {a})", "{a}", "b'x'", "...", "1j", "10**100", "-{a}.real", "{a} if {a} else {b} if {b} else {a}", "not {a} in {b}", "{a}[{b}][{b}]", "{a}.attr.attr2",
             "{a}({b})({b})", "await {a}", "(yield {a})", "(yield from {a})", "[*{a}, *{b}]", "{a}[{b}:{b}:{b}]", "{a} @ {b}", "{a} ** -{b}", "type({a})", "len({a})", "isinstance({a}, {b})",
-            "print({a}, sep={b})", "str({a})", "int({a})", "{a}.format({b})", '"%s" % {a}', '"%d %s" % ({a}, {b})', "super().{b}" if False else "super()", "__class__", "__name__"])
+            "{a}[::0]", "{a}[0:0:0]", '("\u65e5\u672c\u8a9e\u65e5\u672c\u8a9e", {a})', '"\u00e9" + {a}', "print({a}, sep={b})", "str({a})", "int({a})", "{a}.format({b})", '"%s" % {a}', '"%d %s" % ({a}, {b})', "super().{b}" if False else "super()", "__class__", "__name__"])
 CONTEXTS = [
     "v = {e}", "v = w = {e}", "v, w = {e}", "v, *w = {e}", "[v, w] = {e}", "v = 0\n    v += {e}", "v = 0\n    v @= {e}", "v: int = {e}", "v: {e} = 1", 'v: "{q}" = 1', "v: {e}",
     "return {e}", "print({e})", "print(*{e})", "print(**{e})", "print(k={e})", "@{e}\n    def g(): pass", "def g(p={e}): pass", "def g(p: {e}): pass", 'def g(p: "{q}"): pass',
@@ -102,6 +102,22 @@ def class_programs():
     return out
 
 
+def extra_programs():
+    """module-level programs outside the two grammars: unannotated functions returning class objects (their shared type is computed through mro()), calls passing
+    class objects to unannotated parameters (checked again by the final CallableTracker pass), self-referential containers"""
+    classes = ["int", "type", "str", "object", "enum.Enum", "abc.ABCMeta", "type(None)", "enum.EnumMeta"]
+    out = []
+    n = 0
+    for c1 in classes:
+        for c2 in classes:
+            n += 1
+            out.append("import enum, abc\ndef xr%d(c):\n    if c:\n        return %s\n    return %s\n" % (n, c1, c2))
+            out.append("import enum, abc\ndef xp%d(a):\n    pass\ndef xq%d():\n    xp%d(%s)\n    xp%d(%s)\n" % (n, n, n, c1, n, c2))
+    out += ["XL1 = [1]\nXL1.append(XL1)\ndef xs1():\n    return XL1\n", "XD1 = {}\nXD1['k'] = XD1\ndef xs2():\n    return XD1['k']\n",
+            "XL2 = [1]\nXL2.append([XL2])\ndef xs3(a=XL2):\n    for y in XL2:\n        print(y, a)\n"]
+    return out
+
+
 def _executes(src):
     """module-level programs must import: run the candidate once in a scratch namespace"""
     try:
@@ -127,6 +143,7 @@ def _progs(tier):
                     continue
                 good.append(src)
             good.extend(src for src in class_programs() if _executes(src))
+            good.extend(src for src in extra_programs() if _executes(src))
         _PROGS[tier] = good
     return _PROGS[tier]
 
@@ -169,6 +186,8 @@ def _exc_sig(tb_text):
     last = tb_text.strip().split("\n")[-1]
     exc = m.group(1) if m else last.split(":")[0].strip()
     where = "%s:%s" % frames[-1] if frames else "?"
+    if exc == "RecursionError":
+        where = "(the innermost frame depends on the stack depth at which the recursion started)"
     return exc, where
 
 
@@ -194,6 +213,8 @@ def _check_batch(res, srcs, cfg, base, tier, harvested=False):
                 fails = check(code, checker=_checker(cfg), module_factory=test_module_factory())
             else:
                 fails = check(code, checker=_checker(cfg))
+            # the passes that run after all files have been visited (unused-object / callable tracking): part of every real run
+            fails = list(fails) + list(_checker(cfg).perform_final_checks() or [])
         signal.alarm(0)
     except _Timeout:
         signal.alarm(0)
